@@ -1633,7 +1633,10 @@ def aten_cat(tensors: Sequence[TTensor], dim: int = 0) -> TTensor:
         if tensor.shape == (0,):
             continue
         filtered_tensors.append(tensor)
-    assert filtered_tensors, "aten::cat received all None or empty tensors"
+    if not filtered_tensors:
+        # Only 1-D empty tensors (legacy rule): the result is an empty tensor
+        assert tensors and tensors[0] is not None, "aten::cat received no tensors"
+        return op.Identity(tensors[0])
     if len(filtered_tensors) == 1:
         return op.Identity(filtered_tensors[0])
     return op.Concat(*filtered_tensors, axis=dim)
